@@ -16,7 +16,7 @@ import (
 // (two files of a package defining the same type then generate two Go declarations that do not compile).
 
 func init() {
-	register(&Rule{ID: "R14.8", Props: []string{"C14"}, Floor: 9,
+	register(&Rule{ID: "R14.8", Props: []string{"C14", "C05"}, Floor: 9,
 		Doc: "unique registries: every insertion into a name/tag/number registry of internal/lang/model is dominated by a failed membership test of the same registry and key whose positive branch returns an error",
 		Run: runR14_8})
 }
@@ -27,6 +27,10 @@ var r14RegistryExempt = map[string]string{
 }
 
 func runR14_8(c *Ctx, r *R) {
+	real := r
+	outer := &R{c: c, rule: &Rule{ID: r.rule.ID, Props: []string{"C14"}}}
+	fieldsR := &R{c: c, rule: &Rule{ID: r.rule.ID, Props: []string{"C14", "C05"}}}
+	defer func() { real.n += outer.n + fieldsR.n }()
 	n := 0
 	// the object a registry lives in, and the registry's field: load of FieldAddr(base, F)
 	regOf := func(v ssa.Value) (ssa.Value, *types.Var) {
@@ -105,6 +109,12 @@ func runR14_8(c *Ctx, r *R) {
 			}
 			if fld == nil {
 				return // local map (not a registry of a model object)
+			}
+			// field names and tags must be unique for the tag-addressed translation to round-trip (C05): two
+			// accepted fields with one tag share one writer slot and one accessor
+			r := outer
+			if fn.Name() == "newFields" || fld.Name() == "Tags" {
+				r = fieldsR
 			}
 			n++
 			cnt[fld.Name()]++
